@@ -2,13 +2,12 @@
 # usage: try_patch.sh <patch> <property> [tier]   -> applies patch to /repo, runs the check, reverts
 patch=$1; prop=$2; tier=${3:-quick}
 cd /repo || exit 2
-if ! git apply --check "$patch" 2>/dev/null; then
-  if ! git apply --3way --check "$patch" 2>/dev/null; then echo "PATCH-DOES-NOT-APPLY $patch"; exit 3; fi
-fi
-git apply "$patch" || git apply --3way "$patch"
+git reset -q --hard HEAD
+if ! git apply --check "$patch" 2>/dev/null; then echo "PATCH-DOES-NOT-APPLY $patch"; exit 3; fi
+git apply "$patch"
 cd /verif && ./check "$prop" "$tier" > /tmp/try_patch_$$.log 2>&1
 rc=$?
-git -C /repo checkout -- . 
+git -C /repo reset -q --hard HEAD
 grep -E "^VIOLATION|^  signature|^OK|MACHINERY" /tmp/try_patch_$$.log | cut -c1-260 | head -${LINES_MAX:-4}
 rm -f /tmp/try_patch_$$.log
 echo "rc=$rc"
